@@ -243,12 +243,21 @@ def c10(ctx):
     texts, universe, sel = roles.tree_roles()
     stexts, suniverse = sameid_roles(roles)
     ttexts, tuniverse = samestep_roles(roles)
-    runs = [("rewrite", texts[:3] if not thorough else texts, universe if thorough else universe[:4], "3", sel),
-            ("rewrite-sameid", stexts if thorough else stexts[:3], suniverse if thorough else suniverse[:4], "3" if thorough else "2", "same id, different '+' / exception"),
-            ("rewrite-samestep", ttexts if thorough else ttexts[:3], tuniverse if thorough else tuniverse[:4], "3" if thorough else "2", "two ids of one step, case variant")]
-    for name, tx, uni, start, what in runs:
+    # (measured: ~200 states/s with replay; one rewrite from every tree <= 3 leaves over 3 labels = 10 k states, over 4 labels = 15 k;
+    #  two rewrites from every tree <= 2 leaves over 4 labels = 45 k)
+    if thorough:
+        runs = [("rewrite", texts, universe, "3", "1", sel),
+                ("rewrite-2steps", texts, universe[:4], "2", "2", sel),
+                ("rewrite-sameid", stexts, suniverse, "3", "1", "same id, different '+' / exception"),
+                ("rewrite-samestep", ttexts, tuniverse, "3", "1", "two ids of one step, case variant"),
+                ("rewrite-sameid-2steps", stexts, suniverse[:4], "2", "2", "same id, different '+' / exception")]
+    else:
+        runs = [("rewrite", texts[:3], universe[:4], "3", "1", sel),
+                ("rewrite-sameid", stexts[:3], suniverse[:4], "2", "1", "same id, different '+' / exception"),
+                ("rewrite-samestep", ttexts[:3], tuniverse[:4], "2", "1", "two ids of one step, case variant")]
+    for name, tx, uni, start, steps, what in runs:
         ctx.write_params("MC_Tree_P", {"MaxLeaves": "3", "LeafTexts": tla_seq(tx), "Universe": tla_seq(uni)})
-        ctx.write_params("MC_Rewrite_P", {"StartLeaves": start, "MaxSteps": "2" if thorough else "1", "MaxSize": "8" if thorough else "7"})
+        ctx.write_params("MC_Rewrite_P", {"StartLeaves": start, "MaxSteps": steps, "MaxSize": "8" if thorough else "7"})
         ctx.notes.append("%s: roles=%s texts=%s universe=%s" % (name, what, tx, uni))
         r = ctx.run_tlc(name, "MC_Rewrite", "MC_Rewrite", timeout=3400)
         if r["violated"]:
